@@ -13,13 +13,13 @@ def unit_path_of(w, key, amt):
     return q.unit_path if q else None
 
 
-def by_value_form(ctx, config, w, crate, op, A, B, Rr, imp, amt):
+def by_value_form(ctx, config, w, crate, op, A, B, Rr, imp, amt, rule="derived-form", inst=None):
     U = w.U
-    inst = "%s/%s %s %s" % (config, A, op, B)
+    inst = inst or "%s/%s %s %s" % (config, A, op, B)
     fn = opforms.OPFN[op]
     UA, UB = unit_path_of(w, A, amt), unit_path_of(w, B, amt)
     if UA is None or UB is None:
-        ctx.fail("derived-form", inst, "operand type is not a modelled quantity type", imp["span"])
+        ctx.fail(rule, inst, "operand type is not a modelled quantity type", imp["span"])
         return
     sa = S.scale(S.unit(a_, tag=A), tag=UA)
     sb = S.scale(S.unit(b_, tag=B), tag=UB)
@@ -29,13 +29,15 @@ def by_value_form(ctx, config, w, crate, op, A, B, Rr, imp, amt):
     prod = (op, S.amount(a_, tag=A), S.amount(b_, tag=B))
     b = U.item_body(imp, fn)
     if b is None:
-        ctx.fail("derived-form", inst, "no body", imp["span"])
+        ctx.fail(rule, inst, "no body", imp["span"])
         return
-    ev = T.Evaluator(U, keep_tags=True)
+    # default methods of the library's traits other than the ones the specification names are looked through, with
+    # their generic parameters bound to the operator's types (a shared helper for all operand forms stays transparent)
+    ev = T.Evaluator(U, keep_tags=True, inline={"*"}, stop=G.STOP)
     try:
         outs = [(g, k, T.canon(t)) for g, k, t in ev.summarize(b)]
     except T.Unsupported as x:
-        ctx.fail("derived-form", inst, "unsupported construct: " + x.what, x.sp or b["span"])
+        ctx.fail(rule, inst, "unsupported construct: " + x.what, x.sp or b["span"])
         return
 
     def spec(val):
@@ -44,7 +46,7 @@ def by_value_form(ctx, config, w, crate, op, A, B, Rr, imp, amt):
         return ("val", S.app("HasRefUnit::_fit", S.R(("*", prod, sigma)), tag=Rr))
     probs = list(S.compare_cases(outs, [atom], spec))
     obs = "; ".join("[%s] %s %s" % (T.show_guard(g), k, T.show(t)) for g, k, t in outs)
-    ctx.ob("derived-form", inst, not probs,
+    ctx.ob(rule, inst, not probs,
            (probs[0][1] if probs else "") + " — the scale combination must use the impl's own operator, the natural-unit branch must store exactly "
            "the %s of the amounts, the fallback must pass (a %s b)·(s_a %s s_b) to the result type's _fit. Observed: %s" % (
                "product" if op == "*" else "quotient", op, op, obs), b["span"])
@@ -52,7 +54,7 @@ def by_value_form(ctx, config, w, crate, op, A, B, Rr, imp, amt):
         ctx.sample({"impl": inst, "summary": obs[:700]})
 
 
-def ref_forms(ctx, config, w, crate, op, A, B, Rr, byval_imp):
+def ref_forms(ctx, config, w, crate, op, A, B, Rr, byval_imp, amt=None):
     U = w.U
     fn = opforms.OPFN[op]
     n = 0
@@ -87,6 +89,14 @@ def ref_forms(ctx, config, w, crate, op, A, B, Rr, byval_imp):
             ok = args_ok and target_ok
             why = "forwards to <%s as %s<%s>>::%s (impl #%s) with arguments %s; expected the by-value impl #%s with (self, rhs) dereferenced in order" % (
                 tys[0], OPTRAIT[op].split("::")[-1], tys[1] if len(tys) > 1 else "?", fn, r.get("impl_index"), T.show(t), byval_imp["index"])
+        if not ok and amt is not None and not (len(calls) == 1 and len(ev.calls_seen) == 1):
+            # not a forwarder: the borrowed form carries the algorithm itself (e.g. all four operand forms call one
+            # shared helper) and is held against the same specification as the by-value form
+            by_value_form(ctx, config, w, crate, op, A, B, Rr, imp, amt, rule="ref-form", inst=inst)
+            if config.startswith("dec"):
+                decimal_accuracy(ctx, config, w, op, A, B, Rr, imp, amt)
+            n += 1
+            continue
         ctx.ob("ref-form", inst, ok, why, b["span"])
         n += 1
     return n
@@ -232,7 +242,7 @@ def decimal_accuracy(ctx, config, w, o, X, Y, Rr, imp, amt):
     from .magn import round18
     U = w.U
     body = U.item_body(imp, opforms.OPFN[o])
-    ev = T.Evaluator(U, keep_tags=True)
+    ev = T.Evaluator(U, keep_tags=True, inline={"*"}, stop=G.STOP)
     try:
         outs = [(g, k, T.canon(t)) for g, k, t in ev.summarize(body)]
     except T.Unsupported:
@@ -313,7 +323,7 @@ def run_config(ctx, config, counts):
                     counts["natural"] = counts.get("natural", 0) + natural_unit_exact(ctx, config, w, o, X, Y, Rr, amt, imp["span"])
                     counts["accuracy"] = counts.get("accuracy", 0) + decimal_accuracy(ctx, config, w, o, X, Y, Rr, imp, amt)
                 counts["byval"].add((config, X, o, Y))
-                counts["ref"] += ref_forms(ctx, config, w, crate, o, X, Y, Rr, imp)
+                counts["ref"] += ref_forms(ctx, config, w, crate, o, X, Y, Rr, imp, amt)
 
 
 def run(ctx):
